@@ -367,10 +367,10 @@ def regtable_task():
     res['paths'] = 1
     res['decisions'] = 1
     bad = []
-    for k in set(exp) | set(got):
-        if exp.get(k, 'missing') != got.get(k, 'missing'):
-            bad.append((repr(k), exp.get(k, 'missing'), got.get(k, 'missing')))
-        res.oblig(exp.get(k, 'missing') == got.get(k, 'missing'))
+    for k in exp:       # additional aliases a maintainer may add are not a violation
+        if exp[k] != got.get(k, 'missing'):
+            bad.append((repr(k), exp[k], got.get(k, 'missing')))
+        res.oblig(exp[k] == got.get(k, 'missing'))
     # spellings through the text front end: rd, rs1, rs2 positions and numerals
     addw = isa.T['add']
     spellings = [k for k in exp if isinstance(k, str)] + ['0x%x' % n for n in range(32)] + \
